@@ -13,7 +13,7 @@
    [compatible ts]: whenever two files both contain a class at the same path, the two headers have the
    same type and, attribute by attribute, at most one of them is non-empty or both are equal. *)
 From Coq Require Import List Bool PArith Arith Permutation.
-From PV Require Import Model.C27_merge Proofs.C27_merge.
+From PV Require Import Model.C27_merge Model.C27_flat Proofs.C27_merge Proofs.C27_flat.
 Import ListNotations.
 
 (* Central theorem: for every compatible set of parsed files, of any size and nesting depth, every
@@ -53,18 +53,63 @@ Theorem C27_drivers_agree (t : node) (ts : list node) (n : name) (p : list name)
 Proof. exact (styles_agree t ts n p). Qed.
 Print Assumptions C27_drivers_agree.
 
-(* PARTIAL (the flattening step).  The property speaks about the FLATTENED models.  pymoca.tree.flatten is
-   not modelled; what is proved is that every observation F of the assembled tree that respects
-   lookup-equality is the same for every file order.  That the real flatten is such an F (it reaches
-   classes through dictionary lookups only and never depends on the insertion order of nested classes)
-   is NOT proved: it is checked on every run by the oracle, which flattens every model of every
-   generated library with the real code after every permutation of the files. *)
+(* ---- the flattened models ----
+   [flat E t top] (Model/C27_flat.v) is an executable model of the part of pymoca.tree.flatten that decides which
+   variables the flat model of class `top` has: _find_class (nested classes, qualified imports, parent scopes,
+   encapsulated), flatten_extends (bases first, dict.update), build_instance_tree (symbol types - inherited ones
+   too - looked up from the deriving class; a component's modifiers move into its instance), the pulling of
+   package constants referenced by qualified name (ConstantReferenceApplier / _find_constant_symbol), dotted
+   instance names.  E decodes the content tokens of the headers (symbols: name, type, references; extends;
+   imports; equations' references) and is the same for every file order.  It reaches the tree only through [get]: *)
+Theorem C27_flat_respects_lookup (E : denv) (t t' : node) :
+  (forall p, get t p = get t' p) -> forall top, flat E t top = flat E t' top.
+Proof. exact (flat_respects_lookup E t t'). Qed.
+Print Assumptions C27_flat_respects_lookup.
+
+(* The property at the level of flattened models (of the flattening MODEL): same flat variable list for every
+   permutation of a compatible set of files, both drivers. *)
+Theorem C27_flatten_perm (E : denv) (top : path) (ts ts' : list node) :
+  Permutation ts ts' -> Forall wf ts -> compatible ts ->
+  flat E (merge_api ts) top = flat E (merge_api ts') top /\
+  flat E (merge_compiler ts) top = flat E (merge_compiler ts') top.
+Proof. exact (flatten_perm E top ts ts'). Qed.
+Print Assumptions C27_flatten_perm.
+
+Theorem C27_flatten_split_perm (E : denv) (top : path) (fs fs' : list file) :
+  Permutation fs fs' -> Forall wf (map file_to_tree fs) -> split_ok (map file_to_tree fs) ->
+  flat E (merge_api (map file_to_tree fs)) top = flat E (merge_api (map file_to_tree fs')) top /\
+  flat E (merge_compiler (map file_to_tree fs)) top = flat E (merge_compiler (map file_to_tree fs')) top.
+Proof. exact (flatten_split_perm E top fs fs'). Qed.
+Print Assumptions C27_flatten_split_perm.
+
+(* PARTIAL.  What is still not proved about the REAL pymoca.tree.flatten: that it equals [flat].  [flat] is tied to it
+   on every run by the correspondence (ordered declared variables with their types, set of pulled constants, for every
+   model of every generated library, evaluated on the model-merged tree of every file order), not by proof; values,
+   attributes and equations of the flat model are not in [flat] at all (the oracle compares them on the real code).
+   ASSUMED about dictionary iteration: [flat] never iterates over a nested-class dictionary, classes are reached by key
+   only; the order of a class's SYMBOLS is the order the parser built inside one file (content tokens of one header), so
+   it cannot depend on the file order.  pymoca does iterate nested-class dictionaries in build_instance_tree
+   (tree.py:403-426, eager instantiation of the nested classes of an INSTANTIATED class, in insertion order) and copies
+   them in flatten_extends (293, 315): for that order to be file-order independent the nested classes of every
+   instantiated class (the model, its bases, its component classes) must come from one file - true when `within` names
+   packages and models are not split, which is the property's domain; the generator never nests classes in models.
+   `import P.*` is not modelled (such libraries are skipped by the flat correspondence and counted).
+   The general statement below covers ANY observation that respects lookup-equality. *)
 Theorem C27_flatten_perm_partial (A : Type) (F : node -> A) :
   (forall t t', (forall p, get t p = get t' p) -> F t = F t') ->
   forall ts ts', Permutation ts ts' -> Forall wf ts -> compatible ts ->
   F (merge_api ts) = F (merge_api ts') /\ F (merge_compiler ts) = F (merge_compiler ts').
 Proof. exact (observation_perm F). Qed.
 Print Assumptions C27_flatten_perm_partial.
+
+(* non-vacuity of the flattening model: package file last / first, the model's variable and the pulled constant *)
+Example C27_flat_example :
+  flat fx_E (merge_api (map file_to_tree [fx_f1; fx_f0])) [10; 12]%positive
+    = Some [([41], 50, false); ([10; 40], 50, true)]%positive /\
+  flat fx_E (merge_compiler (map file_to_tree [fx_f0; fx_f1])) [10; 12]%positive
+    = Some [([41], 50, false); ([10; 40], 50, true)]%positive.
+Proof. exact fx_result. Qed.
+Print Assumptions C27_flat_example.
 
 (* the boolean checks that the correspondence evaluates on the really parsed files of every generated
    compatible split imply the hypotheses of C27_merge_perm *)
